@@ -76,3 +76,14 @@ PROPS["C02"] = {
     "trusted_base": PKG_TB + ["text/template and rpmpack's header index are modelled by their output (compared byte for byte / tag by tag)"],
     "assumptions": ["descriptions contain no Unicode white space other than ASCII (strings.TrimSpace is modelled on ASCII)"],
 }
+
+PROPS["C14"] = {
+    "level": "proof", "harness": "C14", "driver": "C14", "shrink_field": None,
+    "rule": ("cases = version strings from the semver grammar (optional v, 1-3 numeric parts incl. 2^64-1, prerelease and metadata identifiers incl. numeric, hyphenated, leading-zero) and one-edit near misses, "
+             "x explicit prerelease / metadata x schema in {default, semver, none, other}, through the real nfpm.WithDefaults; the version fields of real deb/ipk/rpm packages for a prerelease build, the release, "
+             "a higher epoch and a higher patch level, judged by the Gallina ports of dpkg's and rpm's comparison; random pairs comparing the dpkg port with `dpkg --compare-versions`; "
+             "distinct = distinct (schema, version, prerelease, metadata); all count as non-trivial"),
+    "trusted_base": COMMON_TB + ["dpkg --compare-versions (external judge validating the Gallina port of verrevcmp); the rpmvercmp port is validated only by the ordering cases (no rpm binary on this image)",
+                                  "Masterminds/semver's regular expression is modelled as a recursive-descent parser and validated by differential execution"],
+    "assumptions": [],
+}
